@@ -27,6 +27,8 @@
 #include <cerrno>
 #include <cstring>
 
+#include <limits>
+
 CBDATA_NAMESPACED_CLASS_INIT(Rock, Rebuild);
 
 /**
@@ -619,6 +621,8 @@ Rock::Rebuild::finalizeOrThrow(const sfileno fileNo, LoadingEntry &le)
     /* no hodgepodge entries: one entry - one full chain and no leftovers */
     Must(slotId < 0);
     Must(mappedSize == le.size);
+    // and that chain must be as long as the entry claims to be (if it does)
+    Must(!anchor.basics.swap_file_sz || anchor.basics.swap_file_sz == le.size);
 
     if (!anchor.basics.swap_file_sz)
         anchor.basics.swap_file_sz = le.size;
@@ -807,17 +811,22 @@ Rock::Rebuild::addSlotToEntry(const sfileno fileno, const SlotId slotId, const D
 
         le.anchored(true);
 
-        if (!importEntry(anchor, fileno, header)) {
+        // on-disk sizes come from an untrusted db; object sizes are int64_t elsewhere
+        static const auto maxEntrySize = static_cast<uint64_t>(std::numeric_limits<int64_t>::max());
+
+        if (!importEntry(anchor, fileno, header) || anchor.basics.swap_file_sz > maxEntrySize) {
             freeBadEntry(fileno, "corrupted metainfo");
             return;
         }
 
         // set total entry size and/or check it for consistency
         if (const uint64_t totalSize = header.entrySize) {
-            assert(totalSize != static_cast<uint64_t>(-1));
+            if (totalSize > maxEntrySize) {
+                freeBadEntry(fileno, "bad entry size");
+                return;
+            }
             if (!anchor.basics.swap_file_sz) {
                 anchor.basics.swap_file_sz = totalSize;
-                assert(anchor.basics.swap_file_sz != static_cast<uint64_t>(-1));
             } else if (totalSize != anchor.basics.swap_file_sz) {
                 freeBadEntry(fileno, "size mismatch");
                 return;
